@@ -4,33 +4,52 @@ import (
 	"fmt"
 	"os"
 	"runtime"
+	"strings"
 	"testing"
 )
 
-// TestVReplay re-runs one harness natively with the inputs recorded in the
-// file named by $VERIF_REPLAY.
+// TestVReplay re-runs harnesses natively with the inputs recorded in the
+// file(s) named by $VERIF_REPLAY (':'-separated).
 func TestVReplay(t *testing.T) {
-	path := os.Getenv("VERIF_REPLAY")
-	if path == "" {
+	paths := os.Getenv("VERIF_REPLAY")
+	if paths == "" {
 		t.Skip("VERIF_REPLAY not set")
 	}
+	failed := false
+	for _, path := range strings.Split(paths, ":") {
+		if !vReplayOne(path) {
+			failed = true
+		}
+	}
+	if failed {
+		t.Fatal("at least one replay reproduced a violation")
+	}
+}
+
+func vReplayOne(path string) (pass bool) {
 	if err := vLoadReplay(path); err != nil {
-		t.Fatal(err)
+		fmt.Printf("VREPLAY-FILE %s ERROR %v\n", path, err)
+		return false
 	}
 	h, ok := vHarnesses[vRF.Harness]
 	if !ok {
-		t.Fatalf("unknown harness %q", vRF.Harness)
+		fmt.Printf("VREPLAY-FILE %s ERROR unknown harness %q\n", path, vRF.Harness)
+		return false
 	}
 	vBaseGoroutines = runtime.NumGoroutine()
 	defer func() {
 		if r := recover(); r != nil {
+			pass = false
 			if v, ok := r.(vViolation); ok {
-				t.Fatalf("violation reproduced: %s", v.msg)
+				fmt.Printf("VREPLAY-FILE %s VIOLATION %s\n", path, v.msg)
+				return
 			}
 			fmt.Printf("VREPLAY-VIOLATION panic %v\n", r)
-			t.Fatalf("panic reproduced: %v", r)
+			fmt.Printf("VREPLAY-FILE %s PANIC %v\n", path, r)
+			return
 		}
-		fmt.Println("VREPLAY-PASS")
+		fmt.Printf("VREPLAY-PASS\nVREPLAY-FILE %s PASS\n", path)
 	}()
 	h()
+	return true
 }
